@@ -370,6 +370,27 @@ func runC20(r *Run) {
 	r.Extra["invalid_config_variants"] = len(e.badOut)
 	r.Extra["euid"] = e.euid
 	r.Extra["symlinks"] = "not generated: filepath.Walk uses Lstat, symlink behaviour is observed only (see notes/C20.md)"
+	// symbolic links: observed only (outside the model): what does the walk return for a link to an
+	// executable file, a link to a non-executable file and a link to a directory with a hook inside?
+	func() {
+		base := filepath.Join(r.Scratch, "symlink-observation", "hooks")
+		if os.MkdirAll(filepath.Join(base, "real"), 0o755) != nil {
+			return
+		}
+		defer os.RemoveAll(filepath.Join(r.Scratch, "symlink-observation"))
+		_ = os.WriteFile(filepath.Join(base, "real", "x.sh"), []byte("#!/bin/bash\n"), 0o755)
+		_ = os.WriteFile(filepath.Join(base, "real", "plain"), []byte("data\n"), 0o644)
+		_ = os.Symlink("real/x.sh", filepath.Join(base, "link-to-exec"))
+		_ = os.Symlink("real/plain", filepath.Join(base, "link-to-plain"))
+		_ = os.Symlink("real", filepath.Join(base, "link-to-dir"))
+		if paths, err := utils_file.RecursiveGetExecutablePaths(base); err == nil {
+			r.Extra["symlinks_observed"] = map[string]any{
+				"tree":   "real/x.sh(0755) real/plain(0644) link-to-exec->real/x.sh link-to-plain->real/plain link-to-dir->real",
+				"result": c20Rels(base, paths),
+				"note":   "filepath.Walk uses Lstat: a link reports mode 0777 and is not a directory, so every link counts as a hook and linked directories are not descended",
+			}
+		}
+	}()
 	if len(e.okOut) == 0 || len(e.badOut) == 0 {
 		r.One(0, func(c *Case, _ *Rng) { c.Op("setup", "no valid/invalid config variant accepted/rejected by LoadAndValidate") })
 		return
@@ -417,7 +438,7 @@ func runC20(r *Run) {
 			e.runCase(r, c, cc.root, cc.nodes, true)
 		})
 	}
-	n := r.N(500, 5000)
+	n := r.N(1200, 8000)
 	r.Cases(100, n, 0, func(c *Case, rng *Rng) {
 		root := PickOne(rng, c20RootNames)
 		nodes := c20GenDir(rng, 1, true)
